@@ -20,13 +20,17 @@ def _mval(x, values):
     return x
 
 
-def apply_real(c, op, params=None, cast=None):
+def apply_real(c, op, params=None, cast=None, phase_cast=None):
     """Apply one op to the real circuit c; returns the (possibly new) circuit.
-    cast: optional function applied to every mode argument (e.g. numpy.int64)."""
+    cast: optional function applied to every mode argument (e.g. numpy.int64).
+    phase_cast: optional function applied to plain-number phases of phase shifters (e.g. numpy.float32)."""
     import lightworks as lw
     if cast is not None:
         op = _cast_modes(op, cast)
     k = op[0]
+    if phase_cast is not None and k == "ps" and not isinstance(op[2], dict):
+        op = list(op)
+        op[2] = phase_cast(op[2])
     if k == "bs":
         _, m1, m2, r, conv, loss = op
         kw = {}
@@ -61,10 +65,10 @@ def apply_real(c, op, params=None, cast=None):
         else:
             c.herald(op[1], op[2], op[3])
     elif k == "add":
-        child = build_real(op[1], params, cast)
+        child = build_real(op[1], params, cast, phase_cast)
         c.add(child, op[2], group=bool(op[3]), name=op[4])
     elif k == "plus":
-        c = c + build_real(op[1], params, cast)
+        c = c + build_real(op[1], params, cast, phase_cast)
     elif k == "gate":
         # ["gate", name, kwargs, mode] - a circuit from lightworks.qubit
         c.add(make_gate(op[1], op[2]), op[3])
@@ -101,11 +105,11 @@ def make_gate(name, kwargs):
     return getattr(qubit, name)(**kw)
 
 
-def build_real(prog, params=None, cast=None):
+def build_real(prog, params=None, cast=None, phase_cast=None):
     import lightworks as lw
     c = lw.Circuit(prog["n"])
     for op in prog["ops"]:
-        c = apply_real(c, op, params, cast)
+        c = apply_real(c, op, params, cast, phase_cast)
     return c
 
 
